@@ -1,6 +1,7 @@
 package rules
 
 import (
+	"fmt"
 	"go/ast"
 	"regexp"
 	"strings"
@@ -178,7 +179,7 @@ func init() {
 		// ---- 5. the timer closure re-validates before declaring dead
 		t := hm["timer"]
 		var eqCond string
-		ast.Inspect(s.fn.Decl.Body, func(n ast.Node) bool {
+		inspectFn(s.fn, func(n ast.Node) bool {
 			if call, ok := n.(*ast.CallExpr); ok {
 				if f := p.Callee(call); f != nil && core.FuncFullName(f) == "time.Time.Equal" {
 					eqCond = p.Canon(call)
@@ -257,6 +258,7 @@ func init() {
 				return e.Seen["TIMERDEL"] >= 1 || g(vTimer) == "F"
 			})
 		}
+		checkTimerCancel(c, "C06")
 		nts := 0
 		for _, st := range c.G.SitesOfKind("MAPINS:Memberlist.nodeTimers") {
 			nts++
@@ -271,4 +273,38 @@ func boolStr(b bool) string {
 		return "true"
 	}
 	return "false"
+}
+
+// checkTimerCancel: a running suspicion is cancelled only by a claim that is
+// accepted. On every path through the alive and dead handlers that clears the
+// suspicion timer of a record that is suspect (and not the local node), the
+// record's state is rewritten on that path - otherwise the record would stay
+// suspect with no timer, and nothing would ever declare it dead.
+func checkTimerCancel(c *Ctx, prop string) {
+	hm := c.handlerModels()
+	rule := "a running suspicion is cancelled only by an accepted claim: whenever the alive or dead handler clears the timer of a suspect (non-local) record, it rewrites the record's state on that path"
+	c.Rule(rule)
+	for _, k := range []string{"alive", "dead"} {
+		h := hm[k]
+		for _, ex := range h.x.Exits {
+			ex := ex
+			if ex.Seen["TIMERDEL"] == 0 {
+				continue
+			}
+			ok, wit := h.x.ForAll(ex.Cube, func(g getf) bool {
+				if g(vS0) != "StateSuspect" || isT(g, vSelf) || !isT(g, vOK) {
+					return true
+				}
+				if k == "alive" && !aliveFound(g) {
+					return true
+				}
+				return ex.Seen["W:State"] > 0
+			})
+			w := ""
+			if !ok {
+				w = fmt.Sprintf("exit at %s cleared the suspicion timer of a suspect record without changing its state {%s}", c.P.Pos(ex.Pos), gea.CubeString(wit))
+			}
+			c.Check(prop+"/invariant/cancel-only-with-state-change/"+k, rule, ex.Pos, ok, w)
+		}
+	}
 }
